@@ -164,6 +164,8 @@ def _request(schema, dispatch, desc, req, doc, executor, rng=None, allow_crash=F
 def run_impl(case):
     if case.get("kind") == "stream":
         return run_stream(case)
+    if case.get("kind") == "rtraise":
+        return run_rtraise(case)
     desc = case["schema"]
     main = case["request"]
     obss = []
@@ -481,6 +483,110 @@ def gen_args_case(rng):
         "features": ["echo-args", "echo-args-" + mode]}}
 
 
+# ---------------------------------------------------------------- resolve_type raising ResolverError
+# A user resolve_type that raises the library's error fails the enclosing FIELD (null + one error at the
+# field's path and location) after the items completed before it (their errors stay); rows / items after it
+# are not started (/repo 60b475c). Exec/ExecModel.v has no "resolve_type raises" outcome (its tyname_res is
+# shared with other properties' proofs), so these cases are judged by a metamorphic relation to the run
+# WITHOUT the raising items, which IS compared with the model: sibling root fields identical; for a field
+# with a raising item: data null, errors = (the control run's errors of that field at positions before
+# the raising item) + [the raised error at the field's path with the field's location].
+_RT_DESC = {"types": [
+    {"kind": "object", "name": "A", "interfaces": [], "fields": [
+        {"name": "x", "pyname": "x", "type": ["nn", "Int"], "args": [], "resolver": False},
+        {"name": "n", "pyname": "n", "type": "Int", "args": [], "resolver": False}]},
+    {"kind": "object", "name": "B", "interfaces": [], "fields": [
+        {"name": "y", "pyname": "y", "type": "Int", "args": [], "resolver": False}]},
+    {"kind": "union", "name": "U", "types": ["A", "B"], "resolve_key": "t"},
+    {"kind": "object", "name": "Query", "interfaces": [], "fields": [
+        {"name": "us", "pyname": "us", "type": ["list", "U"], "args": [], "resolver": False},
+        {"name": "un", "pyname": "un", "type": ["nn", ["list", ["nn", "U"]]], "args": [], "resolver": False},
+        {"name": "uu", "pyname": "uu", "type": ["list", ["list", "U"]], "args": [], "resolver": False},
+        {"name": "u", "pyname": "u", "type": "U", "args": [], "resolver": False},
+        {"name": "k", "pyname": "k", "type": "Int", "args": [], "resolver": False}]}],
+    "query": "Query", "mutation": None, "via": "code"}
+_RT_QUERY = ("{ us { ... on A { x n } ... on B { y } } k un { tn: __typename ... on A { x } } "
+             "uu { ... on A { x } ... on B { y } } u { __typename ... on A { x } } }")
+
+
+def gen_rt_case(rng):
+    def item():
+        if rng.random() < 0.6:
+            return {"t": "A", "x": rng.choice([1, 2, None, 7]), "n": rng.choice([None, 3])}
+        return {"t": "B", "y": rng.choice([None, 5])}
+    items = lambda lo: [item() for _ in range(rng.randint(lo, 4))]  # noqa: E731
+    root = {"us": items(1), "un": items(1), "uu": [items(1) for _ in range(rng.randint(1, 3))], "u": item(),
+            "k": rng.randint(0, 9)}
+    booms = {}
+    for f in ("us", "un", "uu", "u"):
+        if rng.random() < 0.6:
+            if f == "u":
+                booms[f] = []
+            elif f == "uu":
+                i = rng.choice([0, len(root[f]) // 2, len(root[f]) - 1])
+                j = rng.choice([0, len(root[f][i]) // 2, len(root[f][i]) - 1])
+                booms[f] = [i, j]
+            else:
+                booms[f] = [rng.choice([0, len(root[f]) // 2, len(root[f]) - 1])]      # first / middle / last
+    return {"kind": "rtraise", "schema": _RT_DESC, "history": [], "booms": booms,
+            "request": {"text": _RT_QUERY, "variables": {}, "opname": None, "root": root, "world": [],
+                        "features": ["resolve-type-raises"]}}
+
+
+def _with_booms(case):
+    root = copy.deepcopy(case["request"]["root"])
+    for n, (f, pos) in enumerate(sorted(case["booms"].items())):
+        tgt = root[f]
+        for i in pos:
+            tgt = tgt[i]
+        tgt["__boom__"] = n + 1
+    return dict(case["request"], root=root)
+
+
+def run_rtraise(case):
+    control = run_impl({"schema": case["schema"], "request": case["request"], "history": []})
+    failing = _with_booms(case)
+    out = []
+    for executor in ("blocking", "generic"):
+        dispatch = G.Dispatch()
+        schema = G.build_schema(case["schema"], dispatch)
+        o, _ = _request(schema, dispatch, case["schema"], failing, parse(failing["text"]), executor)
+        out.append(o)
+    control["raising"] = out
+    return control
+
+
+def _rt_violations(case, obs):
+    """the metamorphic relation between the run with raising resolve_type calls and the control run"""
+    ctl = obs["obs"][0]
+    bad = []
+    if "data" not in ctl:
+        return bad
+    if obs["raising"][0] != obs["raising"][1]:
+        bad.append("blocking and generic executor differ when resolve_type raises")
+    got = obs["raising"][0]
+    if "data" not in got:
+        return bad + ["a ResolverError raised by resolve_type escaped the entry point: %s" % got.get("exc")]
+    doc = parse(case["request"]["text"])
+    floc = {(s_.alias or s_.name).value: list(s_.loc) for s_ in doc.definitions[0].selection_set.selections}
+    for n, (f, pos) in enumerate(sorted(case["booms"].items())):
+        before = [e for e in ctl["errors"] if e["path"][0] == f and tuple(e["path"][1:1 + len(pos)]) < tuple(pos)]
+        want = before + [{"path": [f], "locs": [floc[f]], "kind": "resolver",
+                          "msg": "cannot resolve type %d" % (n + 1), "ext": {"why": n + 1}}]
+        have = [e for e in got["errors"] if e["path"][0] == f]
+        if got["data"].get(f, 0) is not None or have != want:
+            bad.append("field %s with a raising resolve_type at %s: data %r, errors %r (expected null and %r)"
+                       % (f, pos, got["data"].get(f, "<missing>"), have, want))
+    for f in ctl["data"]:
+        if f not in case["booms"]:
+            if got["data"].get(f, "<missing>") != ctl["data"][f] or \
+                    [e for e in got["errors"] if e["path"][0] == f] != [e for e in ctl["errors"] if e["path"][0] == f]:
+                bad.append("sibling field %s disturbed" % f)
+    if list(got["data"]) != list(ctl["data"]):
+        bad.append("key order changed")
+    return bad
+
+
 def generate(rng, tier):
     n = 260 if tier == "quick" else 3000
     cases = [gen_case(rng) for _ in range(n)]
@@ -490,6 +596,9 @@ def generate(rng, tier):
     # argument-dependent resolvers on mixed runtime types (40 quick, 400 thorough)
     for _ in range(30 if tier == "quick" else 400):
         cases.append(gen_args_case(rng))
+    # user resolve_type raising ResolverError at first / middle / last items (20 quick, 300 thorough)
+    for _ in range(20 if tier == "quick" else 300):
+        cases.append(gen_rt_case(rng))
     return cases
 
 
@@ -547,6 +656,8 @@ def classify(case, obs):
 
 def direct_checks(case, obs):
     out = []
+    if case.get("kind") == "rtraise":
+        out = [("failing-resolve_type-is-local-to-its-field: " + b, None) for b in _rt_violations(case, obs)]
     if case.get("kind") == "stream":
         if obs.get("first_bad") is not None:
             out.append(("result-independent-of-earlier-requests: request #%d of the stream answers differently "
